@@ -351,7 +351,7 @@ def gen_instr(rng, idx, token="ETH", now=360, crossed=False, max_levels=12):
     r = rng.random()
     expiry = now + rng.choice((60, 600, 30000)) if r < 0.8 else now - rng.choice((0, 60, 1000))
     return {
-        "name": f"{token}-X{idx}-{strike}-{'C' if kind == 'CALL' else 'P'}", "state": "open" if rng.random() < 0.93 else "closed",
+        "name": f"{token}-X{idx}-{strike}-{'C' if kind == 'CALL' else 'P'}", "state": "open" if rng.random() < 0.96 else "closed",
         "kind": kind, "strike": strike, "expiry": expiry, "mark": mark, "underlying": underlying,
         "delta": round(rng.uniform(-1, 1), 5), "gamma": round(rng.uniform(0, 0.01), 5), "asks": asks, "bids": bids,
     }
@@ -372,24 +372,26 @@ def gen_amount(rng, levels, token):
     sizes = [level_dec(l[1]) for l in levels]
     total = sum(sizes, Decimal(0))
     r = rng.random()
-    if r < 0.25:
+    if r < 0.15:
         return rng.randint(1, 20), "small-int"
-    if r < 0.35:
+    if r < 0.22:
         return float(rng.randint(1, 40)) + rng.choice((0.5, 0.4, 0.6, 0.25, 0.49999, 0.05, 0.15)), "fractional-float"
-    if r < 0.45 and sizes:
+    if r < 0.3 and sizes:
         return sizes[0], "first-level-exact"
-    if r < 0.55 and len(sizes) > 1:
+    if r < 0.5 and len(sizes) > 1:
         k = rng.randint(1, len(sizes))
-        return sum(sizes[:k], Decimal(0)) + rng.choice((0, 0, step, -step)), f"prefix-sum"
-    if r < 0.62:
+        return sum(sizes[:k], Decimal(0)) + rng.choice((0, 0, step, -step)), "prefix-sum"
+    if r < 0.68 and len(sizes) > 1 and total > 2:
+        return (total * Decimal(rng.randint(5, 99)) / 100).quantize(step), "inside-depth"
+    if r < 0.73:
         return total, "total-depth"
-    if r < 0.7:
+    if r < 0.79:
         return total + step * rng.choice((1, 2, 100)), "beyond-depth"
-    if r < 0.75:
+    if r < 0.83:
         return rng.choice((0, Decimal("0.01"), Decimal("0.04"), -1, Decimal("0.5") if token == "ETH" else Decimal("0.05"))), "below-min"
-    if r < 0.8:
+    if r < 0.86:
         return Decimal(rng.randint(1, 10 ** 6)), "huge"
-    if r < 0.9:
+    if r < 0.93:
         return Decimal(rng.randint(1, 300)) + Decimal(rng.randint(0, 99)) / 100, "decimal"
     return Decimal(rng.randint(1, 60)), "int-decimal"
 
@@ -406,10 +408,13 @@ def gen_trade(rng, instrs, token, side=None, positions=None):
             ins = rng.choice(held)
     levels = ins["asks"] if side == "buy" else ins["bids"]
     amount, acls = gen_amount(rng, levels, token)
-    if side == "sell" and positions and ins["name"] in positions and rng.random() < 0.5:
+    if side == "sell" and positions and ins["name"] in positions and rng.random() < 0.55 and isinstance(amount, (int, Decimal)) \
+            and amount > positions[ins["name"]] and acls != "below-min":
+        amount, acls = positions[ins["name"]], acls + "-clipped"
+    elif side == "sell" and positions and ins["name"] in positions and rng.random() < 0.3:
         held = positions[ins["name"]]
         amount, acls = rng.choice(((held, "held-exact"), (held + 1, "held+1"), (max(Decimal(1), held - 1), "held-1"),
-                                   (held * 10, "held*10"), (Decimal(1), "one")))
+                                   (held * 10, "held*10"), (Decimal(1), "one"), (amount, acls), (amount, acls), (amount, acls)))
     op = {"type": side, "name": ins["name"], "amount": amount}
     mode = rng.random()
     mtag = "market"
